@@ -7,6 +7,7 @@ import PMH.Model.FYShuffle
 import PMH.Model.Sig
 import PMH.Model.Jaccard
 import PMH.Model.Mle
+import PMH.Model.ParamsJson
 import Std.Data.HashMap
 /-!
 # `pmhdriver`: line protocol in front of the executable models
@@ -179,6 +180,30 @@ def stepJac : List String → String
     | _, _, _, _, _ => "bad-op"
   | _ => "bad-op"
 
+def bytesOfHex (s : String) : Option (List Char) :=
+  if s == "-" then some [] else
+  let rec go : List Char → List Char → Option (List Char)
+    | [], acc => some acc.reverse
+    | [_], _ => none
+    | a :: b :: r, acc => match hexDigit a, hexDigit b with
+      | some x, some y => go r (Char.ofNat (x * 16 + y) :: acc)
+      | _, _ => none
+  go s.toList []
+
+def hexOfChars (l : List Char) : String := hexBytes (l.map Char.toNat)
+
+def stepPj : List String → String
+  | ["missing"] => "ERR"
+  | ["ser", b, m, a, q] => match m.toNat?, q.toNat? with
+    | some m, some q => hexOfChars (PJ.serialize b.toList m a.toList q)
+    | _, _ => "bad-op"
+  | ["parse", h] => match bytesOfHex h with
+    | some cs => (match PJ.parse cs with
+      | .ok (b, m, a, q) => "OK " ++ String.ofList b ++ " " ++ toString m ++ " " ++ String.ofList a ++ " " ++ toString q
+      | .error _ => "ERR")
+    | none => "bad-op"
+  | _ => "bad-op"
+
 def step (st : DState) (line : String) : DState × String :=
   match (line.trimAscii.toString.splitOn " ").filter (· ≠ "") with
   | "case" :: id :: _ => (st, "case " ++ id)
@@ -188,6 +213,7 @@ def step (st : DState) (line : String) : DState × String :=
   | "fy" :: rest => stepFy st rest
   | "sig" :: rest => (st, stepSig rest)
   | "jac" :: rest => (st, stepJac rest)
+  | "pj" :: rest => (st, stepPj rest)
   | _ => (st, "bad-op")
 
 partial def loop (h : IO.FS.Stream) (out : IO.FS.Stream) (st : DState) : IO Unit := do
